@@ -129,7 +129,8 @@ def run(ctx):
     cap = 120 if q else 300
     g_plain = Gen(ctx.rng)
     g_metric = Gen(ctx.rng, metric="any")
-    corpus = [(g_metric if i % 3 else g_plain).problem() for i in range(n)]
+    g_if = Gen(ctx.rng, metric="any", ifuns=True)
+    corpus = [(g_if if i % 5 == 4 else g_metric if i % 3 else g_plain).problem() for i in range(n)]
     jobs = [(i + 1, P, L, cap, ctx.seed * 7919 + i) for i, P in enumerate(corpus)]
     with Pool(14, maxtasksperchild=40) as pool:
         recs = pool.map(worker, jobs, chunksize=2)
